@@ -204,6 +204,7 @@ def run(facts, rep, ctx):
         cells = {}
         shape_bad = None
         shape_unknown = None
+        shape_witness = None
         direct_rows = set()
         ok_paths = 0
         for pp in ps:
@@ -276,6 +277,15 @@ def run(facts, rep, ctx):
                 shape_bad = "appends go to something other than the fresh result string"
             if (first_k != 0 or last_k != 1) and not ap:
                 shape_unknown = shape_unknown or "no appends to a fresh string on an Ok path"
+                # a result put together by the path API itself (`with_file_name`, `join`, `set_file_name`, `push`) from the
+                # caller's path cannot express the single-component rule (a lone component is the *directory*, the marker
+                # goes after it): the split helper that implements the swap is bypassed
+                api = [x[1].rsplit("::", 1)[-1] for x in walk(pp.ret) if x[0] == "call" and x[1].startswith("std::path::Path") and
+                       x[1].rsplit("::", 1)[-1] in ("with_file_name", "join", "with_extension")]
+                uses_split = any(e["k"] == "call" and e["callee"] and e["callee"].endswith("get_parent_and_file_name") for e in pp.events)
+                empties = parent_empty(pp)
+                if api and not uses_split and empties is None and any(x[0] == "param" and x[1] == 2 for x in walk(pp.ret)):
+                    shape_witness = "the result is built with Path::%s on the caller's path without the empty-parent test: a single-component path gets the marker glued to the component instead of appended after it as a directory" % api[0]
             elif first_k != 0 or last_k != 1:
                 shape_bad = shape_bad or "result is not [directory part, marker, final component] (components %s, %s)" % (first_k, last_k)
             # returned value must be that string
@@ -304,7 +314,9 @@ def run(facts, rep, ctx):
                 shape_bad = "split rows (parent empty, first/last, origin) are %s; specified: empty parent -> (file name, \"\"), else (parent, file name)" % sorted(direct_rows)
             else:
                 direct_ok.append(cb.name)
-        if shape_bad and not shape_unknown:
+        if shape_witness:
+            rep.violation(R2, cb.name, "shape-path-api", "%s: %s" % (game, shape_witness), "%s:%s" % (cb.file, cb.line))
+        elif shape_bad and not shape_unknown:
             rep.violation(R2, cb.name, "shape", "%s: %s" % (game, shape_bad), "%s:%s" % (cb.file, cb.line))
         elif shape_unknown:
             rep.inconc(R2, "%s: %s" % (game, shape_unknown))
@@ -475,6 +487,12 @@ def uniform_application(facts, rep, R3, only=None):
                             r2 = strip_refs(lc[2][2])
                             if not (r0[0] == "field" and r0[2] == "path_localizer" and r1[0] == "param" and r1[1] == pth and r2[0] == "field" and r2[2] == "language"):
                                 bad = "localizes with (%s, %s, %s)" % (fmt(lc[2][0]), fmt(lc[2][1]), fmt(lc[2][2]))
+                            # the mapped path reaches the layer only when mapping succeeded: a fallback value for a
+                            # failed localisation makes this operation address another location than its siblings
+                            fb = [x[1].rsplit("::", 1)[-1] for x in walk(a) if x[0] == "call" and x[1].rsplit("::", 1)[-1] in (
+                                "unwrap_or", "unwrap_or_else", "unwrap_or_default", "or", "or_else") and any(y is lc or y == lc for y in walk(x))]
+                            if fb:
+                                bad = "with localized=true a failed localisation is replaced by a fallback (%s) instead of being reported" % fb[0]
                     elif flag is False:
                         if loc_calls or not derives_from_param(a, pth):
                             bad = "with localized=false passes %s to %s" % (fmt(a)[:80], c.rsplit("::", 1)[-1])
